@@ -32,10 +32,7 @@ Print Assumptions C09_fuel_bound.
 (* hence every input yields a statement or an error value *)
 Theorem C09_statement_or_error : forall raws,
   (exists s, parse_pipeline raws = POk s) \/ (exists e, parse_pipeline raws = PErr e).
-Proof.
-  intros raws. pose proof (pipeline_never_panics raws). pose proof (pipeline_never_out_of_fuel raws).
-  destruct (parse_pipeline raws) as [s|e|w|]; [left; eauto | right; eauto | congruence | congruence].
-Qed.
+Proof. exact pipeline_statement_or_error. Qed.
 Print Assumptions C09_statement_or_error.
 
 (* the same for a token list handed to sql.Parser directly (any type numbers, any texts) *)
